@@ -409,9 +409,16 @@ def _judge_cov(ctx, func, case, out, x, labels, dof, c1):
         ctx.count('shrinkage: S == target')
         ctx.dev('cov/' + method, maxreldev(out, s))
         if not allclose(out, s, 10 * TOL):
-            ctx.fail(_sig(func, case, 'differs-from-S', specific='S==target'), case,
-                     'S equals its target, estimate must be S = %r, got %r' % (s, o))
-            status = 'fail'
+            tr_o, tr_s = sum(o[j][j] for j in range(p)), sum(variances)
+            if tr_s > zero_thr and tr_o > 0 and allclose(np.array(o) * (tr_s / tr_o), s, 10 * TOL):
+                ctx.fail(_sig(func, case, 'scaled-by-constant'), case,
+                         'estimate = %.6g x S (reference dof %s => library used dof %.6g); rows %r labels %r'
+                         % (tr_o / tr_s, dof_used, dof_used * tr_s / tr_o, x.tolist(), labels))
+            else:
+                ctx.fail(_sig(func, case, 'differs-from-S', specific='S==target'), case,
+                         'S equals its target, estimate must be S = %r, got %r; rows %r labels %r'
+                         % (s, o, x.tolist(), labels))
+            return 'fail', None
         lam = None
     else:
         lam, resid = ref.recover_lambda(o, s, t)
